@@ -398,7 +398,7 @@ func init() {
 	Register(&Check{
 		ID:    "C16",
 		Level: "exploration",
-		Rule: "server byte streams enumerated exhaustively: every message of <=4 (quick) / <=5 (thorough) tokens over a 22-token alphabet (incl. CR and CRLF) (record words, '|', '.', the hidden close message, numbers, severities, " +
+		Rule: "server byte streams enumerated exhaustively: the record pairs include messages whose first field only starts with a record word (REMOTEX, REMOTE_ADDR, SERVERS, ...) for the same server as genuine records; every message of <=4 (quick) / <=5 (thorough) tokens over a 22-token alphabet (incl. CR and CRLF) (record words, '|', '.', the hidden close message, numbers, severities, " +
 			"newline, the 0xAC message delimiter, the aggregate delimiters, an escape sequence), 34 well-formed/nearly well-formed records (incl. AGGREGATE records whose group keys and values are multi-byte, wide or invalid UTF-8) and ~230 records whose text field is a prefix or near miss of a severity word, each followed by every record or token, 5 records of 32-70 KB (alone, followed by a short record, split at the transport boundary), each record split across two Write calls " +
 			"at every byte; each stream is fed to the real ClientHandler, MaprHandler (three queries, incl. order by a plain field and limit; the result report is produced afterwards) and HealthHandler twice (colours off/on) under the controlled scheduler; oracle: no panic in any goroutine and " +
 			"strip(coloured) == strip(uncoloured) where strip removes SGR escape sequences (applied to both sides); the same for 8 records with the colours taken from the repository's example JSON configuration file; non-trivial = the stream makes the client print something; " +
